@@ -652,6 +652,17 @@ impl TrackedBig {
         TrackedBig { t: Tracked::new(v), pad: [v as u64 ^ 0x5555; 9] }
     }
 }
+impl serde::Serialize for TrackedBig {
+    fn serialize<S: serde::Serializer>(&self, s: S) -> Result<S::Ok, S::Error> {
+        s.serialize_u32(self.get())
+    }
+}
+impl<'de> serde::Deserialize<'de> for TrackedBig {
+    fn deserialize<D: serde::Deserializer<'de>>(d: D) -> Result<Self, D::Error> {
+        let v = <u32 as serde::Deserialize>::deserialize(d)?;
+        Ok(TrackedBig::new(v))
+    }
+}
 impl Elem for TrackedBig {
     const KIND: &'static str = "tracked_96_bytes";
     const NEEDS_DROP: bool = true;
